@@ -7,7 +7,8 @@ EXTENDS Collections, Json, IOUtils, SequencesExt, FiniteSetsExt
 
 DupFree == UNION {{s \in [1..n -> Ids] : NoDup(s)} : n \in 0..Cardinality(Ids)}
 
-ExtraOps(k) == {[o |-> "First"]} \cup {[o |-> "AppendMany", xs |-> <<x, y, x>>] : x, y \in Ids}
+ExtraOps(k) == {[o |-> "First"], [o |-> "IRIs"], [o |-> "Normalize"]} \cup {[o |-> "AppendMany", xs |-> <<x, y, x>>] : x, y \in Ids}
+               \cup {[o |-> "ItemsMatch", xs |-> <<x, y>>] : x, y \in Ids}
 
 Cases == UNION {{[kind |-> k, pre |-> s, op |-> op, post |-> ApplyOp(s, op).m, res |-> ApplyOp(s, op).res]
                   : op \in OpsFor(k) \cup ExtraOps(k)} : k \in Kinds, s \in DupFree}
